@@ -545,6 +545,10 @@ func blockContainerLayout(context *layoutContext, box_ Box, bottomSpace pr.Float
 			positionY = pr.Max(maxFloatPositionY, positionY)
 		}
 		newBox.Height = positionY - newBox.ContentBoxY()
+		if collapsingThrough {
+			// no in-flow content: the auto height is zero, whatever the sign of the collapsed margin
+			newBox.Height = pr.Float(0)
+		}
 	}
 
 	if newBox.Style.GetPosition().String == "relative" {
